@@ -1,6 +1,6 @@
 //! C13 — layered filesystem listings are the sorted, de-duplicated union of layers.
 use crate::engine::prop::{Cx, Prop, Tier};
-use crate::gen::fs::{expected_localized, layer_strategy, lookup, path_strategy, payload_strategy, populate, Entry, Node, Payload, Sandbox, Tree, DIRS, GAMES, LANGS};
+use crate::gen::fs::{decorate, expected_localized, layer_strategy, lookup, path_strategy, payload_strategy, populate, Entry, Node, Payload, Sandbox, Tree, DIRS, GAMES, LANGS};
 use mila::LayeredFilesystem;
 use proptest::prelude::*;
 use serde::{Deserialize, Serialize};
@@ -29,6 +29,9 @@ pub struct Case {
     /// writes performed before the queries
     pub writes: Vec<(String, Payload, bool)>,
     pub queries: Vec<Query>,
+    /// spelling of the layer directories handed to LayeredFilesystem::new (0 = canonical)
+    #[serde(default)]
+    pub root_style: u8,
 }
 
 /// does one path component match a component pattern made of literals and '*'?
@@ -132,7 +135,7 @@ impl Prop for C13 {
     const ID: &'static str = "C13";
     fn rule() -> String {
         "Layer trees as in C12 (1..=4 real directories from a small component pool: nested directories, the same path in several layers, empty directories, hidden files, names whose glob order differs from byte order such as map / map.bin / map-x), \
-         optionally followed by a few writes through the filesystem, then queries: list(dir, pattern, localized) for dir in {root '', '.', existing, nested, with trailing slash, missing, a path that is a file} and pattern in {none, '*', '*.bin', '**/*.bin', '**/*', 'sub dir/*', 'map*'}, and subdirectories(dir, localized); 5 games x 8 languages. \
+         layer directories handed over in canonical or equivalent non-canonical spellings, optionally followed by a few writes through the filesystem, then queries: list(dir, pattern, localized) for dir in {root '', '.', existing, nested, with trailing slash, missing, a path that is a file} and pattern in {none, '*', '*.bin', '**/*.bin', '**/*', 'sub dir/*', 'map*'}, and subdirectories(dir, localized); 5 games x 8 languages. \
          Oracle, computed from a std::fs walk of every layer: the set of layer-relative paths (files and directories) strictly under dir in any layer whose dir is a directory, filtered by the harness's own matcher for that glob family, de-duplicated and sorted in ascending string order; \
          sub-directories = immediate child directories in any layer; every listed path satisfies exists(p, false); a missing directory lists as empty; list(d, g, true) == list(localize(d), g, false) (and an error for unsupported pairs). \
          Non-trivial: >= 2 layers contribute to a result and at least one listed path occurs in two of them; or a single-layer result whose glob order differs from sorted order. Distinct = distinct case value."
@@ -149,8 +152,8 @@ impl Prop for C13 {
     }
     fn strategy(_tier: Tier) -> BoxedStrategy<Case> {
         let q = (dir_strategy(), 0u8..PATTERNS.len() as u8, prop_oneof![3 => Just(false), 1 => Just(true)], prop_oneof![4 => Just(false), 1 => Just(true)]).prop_map(|(dir, pattern, localized, subdirs)| Query { dir, pattern, localized, subdirs });
-        (0u8..5, 0u8..8, proptest::collection::vec(layer_strategy(), 1..=4), proptest::collection::vec((path_strategy(), payload_strategy(), any::<bool>()), 0..3), proptest::collection::vec(q, 1..=6))
-            .prop_map(|(game, language, layers, writes, queries)| Case { game, language, layers, writes, queries })
+        (0u8..5, 0u8..8, proptest::collection::vec(layer_strategy(), 1..=4), proptest::collection::vec((path_strategy(), payload_strategy(), any::<bool>()), 0..3), proptest::collection::vec(q, 1..=6), prop_oneof![3 => Just(0u8), 1 => any::<u8>()])
+            .prop_map(|(game, language, layers, writes, queries, root_style)| Case { game, language, layers, writes, queries, root_style })
             .boxed()
     }
     fn enumerate(_tier: Tier, shard: u64, nshards: u64, f: &mut dyn FnMut(Case) -> bool) {
@@ -174,7 +177,7 @@ impl Prop for C13 {
                     queries.push(Query { dir: d.to_string(), pattern: 0, localized: false, subdirs: true });
                     queries.push(Query { dir: d.to_string(), pattern: 0, localized: true, subdirs: false });
                     queries.push(Query { dir: d.to_string(), pattern: 0, localized: true, subdirs: true });
-                    if !f(Case { game: gi, language: li, layers: layers.clone(), writes: vec![], queries }) {
+                    if !f(Case { game: gi, language: li, layers: layers.clone(), writes: vec![], queries, root_style: (idx % 5) as u8 }) {
                         return;
                     }
                 }
@@ -191,7 +194,9 @@ impl Prop for C13 {
         let nlayers = case.layers.len().clamp(1, 4);
         let sb = Sandbox::new(nlayers);
         populate(&sb, game, &case.layers[..nlayers]);
-        let fs = match cx.call(|| LayeredFilesystem::new(sb.layers.clone(), lang, game)) {
+        let given: Vec<String> = sb.layers.iter().enumerate().map(|(i, l)| decorate(l, case.root_style.wrapping_add(i as u8 * (case.root_style % 3)))).collect();
+        cx.label_if(case.root_style % 5 != 0, "non-canonical-layer-root-spelling");
+        let fs = match cx.call(|| LayeredFilesystem::new(given.clone(), lang, game)) {
             Some(Ok(f)) => f,
             Some(Err(e)) => {
                 cx.fail("filesystem-new", format!("{e}"));
